@@ -233,6 +233,9 @@ def free_atoms(types):
         vt = top["args"][1]
         a += [[P("PUSH", TNAT, I(0)), P("GET")], [P("DUP"), P("PUSH", TNAT, I(0)), P("GET")], [P("DUP"), P("PUSH", TNAT, I(0)), P("MEM")],
               [P("NONE", vt), P("PUSH", TNAT, I(0)), P("GET_AND_UPDATE")], [P("DUP", I(1))], [P("DUP")]] * 2
+        if p == "big_map" and _has_ticket(vt):
+            # take a binding out and keep the map on top (so that the same key can be asked again and again)
+            a += [[P("NONE", vt), P("PUSH", TNAT, I(k)), P("GET_AND_UPDATE"), P("SWAP")] for k in (0, 0, 1, 0, 1, 0)]
         if p == "map":
             a += [[P("ITER", [P("DROP")])], [P("MAP", [P("CDR")])], [P("MAP", [P("CDR"), P("DUP"), P("PAIR")])], [P("MAP", [P("DUP"), P("CAR")])]]
     if p == "list":
@@ -268,6 +271,25 @@ def run_free(atoms_fn, case_log, case):
     stack = MichelsonStack()
     totals = {}
     did = set()
+    chain_left = {}
+    if case.get("onchain"):
+        # the execution starts with a big_map of tickets that lives on chain (as a contract storage does): its tickets may come out
+        # of it -- once each
+        from hashlib import blake2b
+        from pytezos.michelson.types.base import MichelsonType
+        from vlib import fake_node
+        from vlib import ref_crypto as rc
+        node = fake_node.FakeNode()
+        kt = "KT1BEqzn5Wx8uJrZNvuS9DVHmLvG9td3fDLi"
+        node.big_maps[5] = {}
+        for k, amt in case["onchain"].items():
+            h = rc.tz_encode(blake2b(rv.pack(TNAT, int(k), legacy=True), digest_size=32).digest(), "expr")
+            node.big_maps[5][h] = {"prim": "Pair", "args": [{"string": kt}, I(1), I(amt)]}
+            chain_left[(kt, repr(1))] = chain_left.get((kt, repr(1)), 0) + amt
+        ctx.shell = fake_node.shell(node)
+        bm = MichelsonType.match(rv.T("big_map", TNAT, _tk(TNAT))).from_micheline_value({"int": "5"})
+        bm.attach_context(ctx)
+        stack.push(bm)
     while True:
         types = [interp.strip_annots(type(i).as_micheline_expr()) for i in stack.items]
         group = atoms_fn(types)
@@ -281,6 +303,10 @@ def run_free(atoms_fn, case_log, case):
         did |= gp.instr_names(group)
         real = _totals_real(stack.items, case)
         for key, amt in real.items():
+            grown = amt - totals.get(key, 0)
+            if 0 < grown <= chain_left.get(key, 0) and not mints:
+                chain_left[key] -= grown   # tickets that came out of the on-chain big_map
+                continue
             if amt > totals.get(key, 0) and not mints:
                 raise Violation("total amount of ticket %s grew from %d to %d by %s (no TICKET executed); history %s" % (
                     key, totals.get(key, 0), amt, xc._short(group), xc._short(case_log)), dict(case, atoms=list(case_log)),
@@ -346,14 +372,44 @@ def _prop_free(data, stats):
         state["k"] += 1
         return data.draw(st.sampled_from(free_atoms(types)))
     case = {"env": env, "free": True}
+    if data.draw(st.integers(0, 3)) == 0:
+        case["onchain"] = {str(k): data.draw(st.sampled_from([5, 5, 3])) for k in data.draw(st.sets(st.integers(0, 1), min_size=1))}
     did = run_free(pick, log, case)
     nt = "TICKET" in did and len(did) >= 4
-    stats.case(log, nt, "free:%s" % ("minted" if "TICKET" in did else "no-ticket"), sample={"atoms": xc._short(log)[:500]})
+    stats.case(log, nt or bool(case.get("onchain")), "free:%s%s" % ("minted" if "TICKET" in did else "no-ticket", ":on-chain-tickets" if case.get("onchain") else ""),
+               sample={"atoms": xc._short(log)[:500], "onchain": case.get("onchain")})
     for name in did & {"DUP", "UPDATE", "CONS", "APPLY", "EXEC", "GET", "GET_AND_UPDATE", "MAP", "SPLIT_TICKET", "JOIN_TICKETS"}:
         stats.label("free-did:" + name)
 
 
+def onchain_histories(max_len):
+    """Every sequence (up to max_len) of: take the binding of key 0 / key 1 out of an on-chain big_map of tickets (keeping the map on
+    top), put the option lying below the map back under key 0 / key 1 -- for two on-chain contents."""
+    import itertools
+    from checks.c01 import _ENV0
+    vt = _tk(TNAT)
+    take = lambda k: [P("NONE", vt), P("PUSH", TNAT, I(k)), P("GET_AND_UPDATE"), P("SWAP")]  # noqa: E731
+    put = lambda k: [P("SWAP"), P("PUSH", TNAT, I(k)), P("UPDATE")]  # noqa: E731
+    alphabet = [take(0), take(1), put(0), put(1)]
+    out = []
+    for onchain in ({"0": 5}, {"0": 5, "1": 3}):
+        for n in range(1, max_len + 1):
+            for seq in itertools.product(range(len(alphabet)), repeat=n):
+                if seq[0] >= 2:
+                    continue  # nothing to put back yet
+                out.append({"env": xc.env_to_json(_ENV0), "free": True, "onchain": onchain, "atoms": [alphabet[i] for i in seq]})
+    return out
+
+
+def _prop_onchain(case, stats):
+    it = iter(case["atoms"])
+    log = []
+    run_free(lambda types: next(it, None), log, case)
+    stats.case(case["atoms"], len(log) >= 3, "free:on-chain-history", sample={"onchain": case["onchain"], "atoms": xc._short(case["atoms"])[:300]})
+
+
 def run(h):
+    h.run_enum(onchain_histories(4 if h.quick else 6), _prop_onchain, shards=16)
     h.run_given(lambda: cases((2, 10) if h.quick else (2, 25)), _prop, h.n(60, 5000), shards=16)
     h.run_given(lambda: st.data(), _prop_free, h.n(150, 8000), shards=16, name="free")
     if h.stats.extra.get("generator_illtyped", 0) > 0.05 * max(1, h.stats.evaluations):
